@@ -82,6 +82,14 @@ func setup(c *vlib.Ctx) {
 		_, err := p.Stdout.Writeln([]byte("\nverdict=" + strconv.FormatBool(ok)))
 		return err
 	}, types.String)
+	// vutallq: runs every registered plan (`*`) and prints the overall verdict and the results table
+	lang.DefineFunction("vutallq", func(p *lang.Process) error {
+		ok := lang.GlobalUnitTests.Run(p, "*")
+		p.ExitNum = 0
+		b, _ := json.Marshal(p.Tests.Results.Dump())
+		_, err := p.Stdout.Writeln([]byte("\nverdict=" + strconv.FormatBool(ok) + "\nresults=" + string(b)))
+		return err
+	}, types.String)
 	for i := 0; i < nFns; i++ {
 		r := mx.Run(fmt.Sprintf("function %s { vsayq %d }", fnName(i), i), nil)
 		if r.Exit != 0 || r.Stderr != "" {
@@ -392,8 +400,89 @@ func enumeratePlans(maxDev int, fn func(ch []int) bool) {
 	})
 }
 
+// multi: several plans registered in one registry and run together (`test run *`): every plan is
+// executed and reported on its own merits, whatever the plans before it did.
+func multi(c *vlib.Ctx) {
+	fns := []int{0, 1, 2} // three different functions
+	perms := [][]int{{0, 1, 2}, {0, 2, 1}, {1, 0, 2}, {1, 2, 0}, {2, 0, 1}, {2, 1, 0}}
+	for mask := 0; mask < 8; mask++ {
+		for pi, perm := range perms {
+			if !c.Next() {
+				continue
+			}
+			lang.GlobalUnitTests = new(lang.UnitTests)
+			want := map[string]bool{}
+			var wit []string
+			prog := "config set test enabled true\nconfig set test auto-report false\n"
+			vars := map[string]string{}
+			for k, idx := range perm {
+				fi := fns[idx]
+				f := fnByIndex(fi)
+				pass := mask&(1<<idx) != 0
+				exit := f.exit
+				if !pass {
+					exit = f.exit + 1
+				}
+				plan := map[string]any{"ExitNum": exit}
+				if f.stderr != "" {
+					plan["StderrMatch"] = f.stderr
+				}
+				pj, _ := json.Marshal(plan)
+				vars[fmt.Sprintf("vname%d", k)] = fnName(fi)
+				vars[fmt.Sprintf("vplan%d", k)] = string(pj)
+				prog += fmt.Sprintf("test unit function $vname%d $vplan%d\n", k, k)
+				want[fnName(fi)] = pass
+				wit = append(wit, fmt.Sprintf("%s:%v", fnName(fi), pass))
+			}
+			prog += "vutallq"
+			w := "multi-plan run, registration order " + strings.Join(wit, " ")
+			r := mx.Run(prog, &mx.Opt{Vars: vars})
+			c.Eval(mask != 7 && mask != 0, fmt.Sprintf("multi-plan mask=%d perm=%d", mask, pi))
+			if r.Hang || mx.HasPanicText(r.Stderr) {
+				c.Violation("terminates", w, vlib.Clip(r.String(), 800))
+				continue
+			}
+			var results []struct {
+				Status string
+				Exec   string
+			}
+			verdict := ""
+			for _, l := range strings.Split(r.Stdout, "\n") {
+				if strings.HasPrefix(l, "verdict=") {
+					verdict = strings.TrimPrefix(l, "verdict=")
+				}
+				if strings.HasPrefix(l, "results=") {
+					json.Unmarshal([]byte(strings.TrimPrefix(l, "results=")), &results)
+				}
+			}
+			if verdict == "" {
+				c.HarnessError("cannot read the multi-plan verdict from %v", r)
+			}
+			if verdict != strconv.FormatBool(mask == 7) {
+				c.Violation("verdict", w, fmt.Sprintf("running every plan returned %s, expected %v", verdict, mask == 7))
+			}
+			for name, pass := range want {
+				passed, failed := false, false
+				for _, x := range results {
+					if x.Exec == name {
+						passed = passed || strings.EqualFold(x.Status, "PASSED")
+						failed = failed || strings.EqualFold(x.Status, "FAILED")
+					}
+				}
+				switch {
+				case pass && (!passed || failed):
+					c.Violation("verdict", w, fmt.Sprintf("plan of %s holds but is reported passed=%v failed=%v (results %s)", name, passed, failed, vlib.Clip(r.Stdout, 600)))
+				case !pass && !failed:
+					c.Violation("verdict", w, fmt.Sprintf("plan of %s does not hold but no failure is reported for it (results %s)", name, vlib.Clip(r.Stdout, 600)))
+				}
+			}
+		}
+	}
+}
+
 func run(c *vlib.Ctx) {
 	setup(c)
+	multi(c)
 	maxDev := 4
 	if !c.Quick() {
 		maxDev = -1
@@ -437,7 +526,7 @@ func replay(c *vlib.Ctx, w string) {
 func init() {
 	vlib.Register(&vlib.Check{
 		ID: "C31", Engine: "E2",
-		Rule:   "functions = {stdout: empty(str), a\\n(str), [\"a\",\"b\"](json), {\"k\":1}(json), 7(json)} x {stderr: empty, e\\n} x {exit 0,1,3} (30, each a one-command function with exactly that behaviour); plans = product of StdoutMatch {none,equal,different} x StdoutRegex {none,match,no-match,invalid} x StdoutType {none,right,wrong} x StdoutIsArray x StdoutIsMap x StdoutGreaterThan {none,length-1,length+1} x ExitNum {actual,other} x StderrMatch {none,equal,different} x StderrRegex {none,match,no-match,invalid}, combinations that do not exist for a function (equality with an empty stream, lengths of non-collections) dropped; thorough = the full product, quick = every plan differing from the all-pass baseline in at most 4 dimensions. Per case the plan is registered with `test unit function NAME <json>` (unit-test registry emptied first), then lang.GlobalUnitTests.Run (boolean) and `test run NAME` (exit number) are observed with test enabled and auto-report off; oracle: passed <=> every assertion present in the plan holds on the known outputs (the oracle evaluates the plan JSON itself). Non-trivial = plans with at least two assertions besides the exit number (their conjunction decides the verdict)",
+		Rule:   "functions = {stdout: empty(str), a\\n(str), [\"a\",\"b\"](json), {\"k\":1}(json), 7(json)} x {stderr: empty, e\\n} x {exit 0,1,3} (30, each a one-command function with exactly that behaviour); plans = product of StdoutMatch {none,equal,different} x StdoutRegex {none,match,no-match,invalid} x StdoutType {none,right,wrong} x StdoutIsArray x StdoutIsMap x StdoutGreaterThan {none,length-1,length+1} x ExitNum {actual,other} x StderrMatch {none,equal,different} x StderrRegex {none,match,no-match,invalid}, combinations that do not exist for a function (equality with an empty stream, lengths of non-collections) dropped; thorough = the full product, quick = every plan differing from the all-pass baseline in at most 4 dimensions. Per case the plan is registered with `test unit function NAME <json>` (unit-test registry emptied first), then lang.GlobalUnitTests.Run (boolean) and `test run NAME` (exit number) are observed with test enabled and auto-report off; oracle: passed <=> every assertion present in the plan holds on the known outputs (the oracle evaluates the plan JSON itself). PLUS multi-plan runs: three functions, every pass/fail assignment and every registration order, all plans run together with `*`: each plan must be reported on its own merits. Non-trivial = plans with at least two assertions besides the exit number (their conjunction decides the verdict)",
 		Run:    run,
 		Replay: replay,
 		Assumptions: []string{
